@@ -24,6 +24,20 @@ ODD_LABELS = [3, (1, 2), None, 'not', 'or', 'A', 'E', 'X', 'U', 'true', '[E(p)]'
 ATOMS = ('p', 'q', 'zzz', '[E(p)]', 'fair')
 
 
+def eval_labels(reprs):
+    """the string labels among a list of repr()s"""
+    import ast
+    out = []
+    for r in reprs:
+        try:
+            v = ast.literal_eval(r)
+        except Exception:
+            continue
+        if isinstance(v, str):
+            out.append(v)
+    return out
+
+
 def run(res):
     rng = rng_for('C19')
     quick = res.tier == 'quick'
@@ -92,6 +106,32 @@ def run(res):
         impl.append(a)
         ctxs.append(ctx)
     model = [mc_common.norm(x) for x in lean_batch(lines)]
+    # CTL*: the decidable hypothesis of ctls_exact_partial (naming discipline) on these adversarial labels, and where it
+    # holds the answer is exact by that theorem; where it fails the answer is additionally compared with the
+    # independent reference semantics (a wrong answer there would be a failing input of C03)
+    ci = [i for i, l in enumerate(lines) if l.startswith('CTLS|')]
+    names_ok = [x.strip() for x in lean_batch(['CTLSNAMES|' + lines[i].split('|', 1)[1] for i in ci])]
+    names = {'true': 0, 'false': 0}
+    clash_wrong = 0
+    for i, ok in zip(ci, names_ok):
+        names[ok] = names.get(ok, 0) + 1
+        if ok != 'true':
+            import reference
+            from common import parse_sexpr
+            g, l, f = lines[i].split('|')[1:4]
+            succ = {int(x.split(':')[0]): [int(y) for y in x.split(':')[1].split()] for x in g.split(';')}
+            ctx = ctxs[i]
+            labs = {s: set(x for x in eval_labels(ctx['labels'][s])) for s in succ}
+            RK = (sorted(succ), {s: set(succ[s]) for s in succ}, labs)
+            try:
+                truth = 'OK ' + ' '.join(map(str, sorted(reference.sat(RK, mc_common.ref_tree(parse_sexpr(f))))))
+            except Exception:
+                continue
+            if mc_common.norm(impl[i]) != mc_common.norm(truth):
+                clash_wrong += 1
+                if clash_wrong <= 2:
+                    res.violation('CTLS.modelcheck(%s) = %s on a structure whose labels clash with generated atom names; the '
+                                  'reference semantics gives %s' % (ctx['formula'], impl[i], truth), dict(ctx, impl=impl[i], reference=truth))
     bad = 0
     nontrivial = 0
     for a, m, ctx in zip(impl, model, ctxs):
@@ -114,6 +154,7 @@ def run(res):
                 'empty names; formulas of a random logic over two of those atoms; the result is type-checked, mutated, '
                 'and the call repeated; distinct_nontrivial = cases with a non-constant answer',
         'logic_histogram': kinds, 'direct_oracle_violations': len(direct), 'model_disagreements': bad,
+        'ctls_cases_by_namesOK': names, 'ctls_name_clash_wrong_answers': clash_wrong,
         'samples': ctxs[:2],
         'traces_validated_against_impl': len(lines),
     })
